@@ -220,5 +220,15 @@ kf("C15", "C15-hlsl-matrix-helper-on-unemitted-struct", "a storage-only struct w
 kf("C15", "C15-msl-rzsw-value-array-unchecked", "under ReadZeroSkipWrite a dynamically indexed let-bound array or vector value (`va.inner[i]`, `vv[i]`) is emitted without any bounds check",
    ["C15|msl|index+buffer=read-zero-skip-write(default)|F15acc/read/value-array/*|trap:oob-read", "C15|msl|index+buffer=read-zero-skip-write(default)|F15acc/read/value-vector/*|trap:oob-read"])
 
+# ---------------------------------------------------------------- C16 (identifiers)
+kf("C16", "C16-glsl-gl-prefix", "a user identifier beginning with gl_ is emitted as gl_<name>_ (only a suffix is appended): GLSL reserves every identifier with the gl_ prefix",
+   ["C16|glsl|*|identifier-problem:*|gl_*"])
+kf("C16", "C16-glsl-block-member-name-clash", "a user entity named like naga's generated GLSL block member (_group_0_binding_0_cs) clashes with it: the emitted GLSL does not parse / types are confused",
+   ["C16|glsl|*|not-well-formed|_group_0_binding_0_cs", "C16|glsl|*|different-result|_group_0_binding_0_cs", "C16|glsl|*|exec*|_group_0_binding_0_cs"])
+kf("C16", "C16-user-function-named-RayDesc", "a user function named RayDesc is shadowed by naga's predeclared RayDesc struct: the call `RayDesc(7u)` is lowered as a struct constructor in every backend",
+   ["C16|*|FN|*|RayDesc", "C16|*|FN2|*|RayDesc"])
+kf("C16", "C16-user-function-named-isnan", "a user function named isnan (not a WGSL builtin) is captured by naga's non-standard builtin table: the call no longer reaches the user's function",
+   ["C16|*|FN|*|isnan", "C16|*|FN2|*|isnan"])
+
 json.dump(K, open("known_findings.json", "w"), indent=1)
 print(len(K), "entries")
